@@ -155,7 +155,8 @@ StepPush(s, e) ==
      ELSE \* panic
           LET s1 == Chk(s0, ~room, "C15", "push panicked although there is room")
               s2 == Chk(s1, ~room, DeliveryProp(s.kind), "push panicked although there is room: what was pushed is never delivered")
-          IN [s2 EXCEPT !.pend = @ \ {c}, !.refused = TRUE]
+          \* (the unwinding must have dropped the future by now: if it has not, it stays in `pend` and is a leak at the end)
+          IN [s2 EXCEPT !.refused = TRUE]
 
 \* --------------------------------------------------------------- observers
 StepObs(s, e) ==
